@@ -12,7 +12,7 @@ func zzElt(name string) *Elt {
 	return x
 }
 
-//zz: prop=C12 tier=quick backend=lia timeout=120
+//zz: prop=C12 also=C14 tier=quick backend=lia timeout=120
 func ZZ_C12_fp25519_add() {
 	x, y, z := zzElt("x"), zzElt("y"), new(Elt)
 	want := zzWAdd(zzWLE(x[:]), zzWLE(y[:]))
@@ -34,7 +34,7 @@ func ZZ_C12_fp25519_add_alias() {
 	zzAssert(zzWCong(zzWLE(x2[:]), want2, zzP), "add (z=x=y) congruent")
 }
 
-//zz: prop=C12 tier=quick backend=lia timeout=120
+//zz: prop=C12 also=C14 tier=quick backend=lia timeout=120
 func ZZ_C12_fp25519_sub() {
 	x, y, z := zzElt("x"), zzElt("y"), new(Elt)
 	want := zzWSub(zzWLE(x[:]), zzWLE(y[:]))
@@ -53,7 +53,7 @@ func ZZ_C12_fp25519_neg() {
 	zzAssert(zzWCong(zzWAdd(zzWLE(z[:]), zzWLE(x[:])), zzWConst("0"), zzP), "neg: z + x = 0 mod p")
 }
 
-//zz: prop=C12 tier=quick backend=lia timeout=120
+//zz: prop=C12 also=C14 tier=quick backend=lia timeout=120
 func ZZ_C12_fp25519_addsub() {
 	x, y := zzElt("x"), zzElt("y")
 	s := zzWAdd(zzWLE(x[:]), zzWLE(y[:]))
@@ -63,7 +63,7 @@ func ZZ_C12_fp25519_addsub() {
 	zzAssert(zzWCong(zzWLE(y[:]), d, zzP), "addsub: y' = x-y")
 }
 
-//zz: prop=C12 tier=quick backend=lia timeout=300
+//zz: prop=C12 also=C14 tier=quick backend=lia timeout=300
 func ZZ_C12_fp25519_mul() {
 	x, y, z := zzElt("x"), zzElt("y"), new(Elt)
 	want := zzWMulLimbs(x[:], y[:])
@@ -79,7 +79,7 @@ func ZZ_C12_fp25519_mul_alias() {
 	zzAssert(zzWCong(zzWLE(x[:]), want, zzP), "mul (z=x) congruent")
 }
 
-//zz: prop=C12 tier=quick backend=lia timeout=300
+//zz: prop=C12 also=C14 tier=quick backend=lia timeout=300
 func ZZ_C12_fp25519_sqr() {
 	x, z := zzElt("x"), new(Elt)
 	want := zzWMulLimbs(x[:], x[:])
@@ -89,7 +89,7 @@ func ZZ_C12_fp25519_sqr() {
 
 // red64 alone: every 512-bit value (exact encoding: only constant multipliers)
 //
-//zz: prop=C12 tier=quick backend=lia timeout=120
+//zz: prop=C12 also=C14 tier=quick backend=lia timeout=120
 func ZZ_C12_fp25519_red64() {
 	var w [8]uint64
 	zzFill("w", &w)
@@ -100,7 +100,7 @@ func ZZ_C12_fp25519_red64() {
 
 // Modp: unique representative below p
 //
-//zz: prop=C12 tier=quick backend=lia timeout=120
+//zz: prop=C12 also=C14 tier=quick backend=lia timeout=120
 func ZZ_C12_fp25519_modp() {
 	x := zzElt("x")
 	v := zzWLE(x[:])
@@ -127,7 +127,7 @@ func ZZ_C12_fp25519_iszero_tobytes() {
 	zzAssert(err != nil, "ToBytes rejects wrong size")
 }
 
-//zz: prop=C12 tier=quick backend=bv timeout=60
+//zz: prop=C12 also=C14 tier=quick backend=bv timeout=60
 func ZZ_C12_fp25519_cmov_cswap() {
 	x, y := zzElt("x"), zzElt("y")
 	n := zzUint("n")
